@@ -814,7 +814,7 @@ func twinUniverses() []*universe {
 // aliasUniverses: patches that keys 1-5 of Patch.Compare cannot tell apart although they differ: package x is required twice, once
 // directly and once under the npm alias "xx" ("xx": "npm:x@1.0.0"); vulnerability A is reached through the first requirement,
 // B through the second. Both fixes read "x 1.0.0 -> 2.0.0" (same Name, VersionFrom, VersionTo) with different Fixed sets and
-// requirement Types. Before fix <commit> Compare returned 0 for them and CompactFunc kept whichever was delivered first (former
+// requirement Types. Before fix 09778cd0 Compare returned 0 for them and CompactFunc kept whichever was delivered first (former
 // known finding C16/compare-equal-distinct-patches); key 6 separates them, both survive in one order. Judged strictly.
 func aliasUniverses() []*universe {
 	base := []req{{Name: "x", Version: "1.0.0"}, {Name: "x", Version: "1.0.0", KnownAs: "xx"}}
